@@ -158,6 +158,11 @@ func checkC03(ctx *Ctx, c *Case) error {
 		}
 		da2, _ := decodeD(t, a)
 		p := model.BuildP(t, da2.ProtoReflect())
+		if digest(c.Bytes, "stalecap")%2 == 0 && model.AddStaleCapacity(p) > 0 {
+			// the lists of the destination carry spare capacity with stale content, as
+			// plain re-slicing leaves it: the same value
+			ctx.Label("mergeopt into lists with stale spare capacity")
+		}
 		if err := (proto.UnmarshalOptions{Merge: true}).Unmarshal(bb, p); err != nil {
 			return fmt.Errorf("Unmarshal with Merge rejected a well-typed stream: %v", err)
 		}
